@@ -163,7 +163,7 @@ def check_case(ctx, case, pr=None):
 def attach_probe(ctx):
     from magpylib._src.fields import field_wrap_BH as W
 
-    pr = probes.Probes()
+    pr = ctx.safety
 
     def cb(fr):
         if not STATE["on"]:
@@ -181,10 +181,9 @@ def attach_probe(ctx):
 
 def run_shard(ctx):
     pr = attach_probe(ctx)
-    with pr:
-        while not ctx.expired():
-            case = gen_case(ctx.rng)
-            check_case(ctx, case)
+    while not ctx.expired():
+        case = gen_case(ctx.rng)
+        check_case(ctx, case)
     for u in pr.unattached:
         ctx.count("probe_unattached:" + u)
 
